@@ -327,9 +327,23 @@ def run_table(e, t, opts):
     if t.get('dup'):
         tag, un = t['regs'][0]
         e.type_tag = tag
-        try:
-            e.call('StaticTypeResolver::add_type', [tref])
-            twice = True
-        except Panic:
-            twice = False
-        e.verify(not twice, 'C18: registering a type twice in a type table is accepted (the table no longer answers exactly what was registered)')
+        for fn in ('StaticTypeResolver::add_type', 'StaticTypeResolver::add_type_allow_uninit'):
+            try:
+                e.call(fn, [tref])
+                twice = True
+            except Panic:
+                twice = False
+            e.verify(not twice, 'C18: registering a type twice in a type table is accepted (the table no longer answers exactly what was registered)')
+        # the refused registrations must have left the table as it was
+        e.flush_checks()
+        for tag, un in t['regs']:
+            e.type_tag = tag
+            e.panic_tag = 'C18: a type table does not answer for a registered type after a refused second registration'
+            ti = e.call('<StaticTypeResolver as TypeResolver>::type_info', [tref])
+            dy = e.call('<StaticTypeResolver as TypeResolver>::dynamic_type_info', [tref, tag])
+            e.panic_tag = ''
+            hs, ha = e.host_syms[('size', tag)], e.host_syms[('align', tag)]
+            e.verify(z3.And(ti.fields[1] == hs, ti.fields[2] == ha) if not isinstance(ti.fields[1] == hs, bool) else (ti.fields[1] == hs and ti.fields[2] == ha),
+                     'C18: a type table answers differently after a refused second registration (%s)' % tag)
+            e.verify(e.eq(dy.fields[0], ti), 'C18: a type table answers differently after a refused second registration (%s)' % tag)
+            e.verify(dy.fields[1] == un, 'C18: a type table answers differently after a refused second registration (%s)' % tag)
